@@ -804,7 +804,7 @@ class Client():
         path = splits.path  # only path component
 
         query = splits.query  # is query in original path
-        qargs = qargs or dict()
+        qargs = dict(qargs) if qargs else dict()  # own copy, updated from query
         qargs, query = httping.updateQargsQuery(qargs, query)
 
         fragment = splits.fragment or fragment  # fragment in path prioritized
